@@ -146,6 +146,7 @@ class CommandsCache(cabc.Mapping):
         self._cmds_cache: dict[str, tuple[str, bool | None]] = {}
 
         self._alias_checksum: int | None = None
+        self._paths_key: tuple | None = None
         self.threadable_predictors = default_threadable_predictors()
 
         # Path to the cache-file where all commands/aliases are cached for pre-loading"""
@@ -213,8 +214,23 @@ class CommandsCache(cabc.Mapping):
         because they are changing state after update.
         """
         is_aliases_change = self._update_aliases_cache()
+        # A `$PATH` edit (or a `cd` while `$PATH` has relative entries)
+        # changes which directories count, and in which order, even though
+        # no directory was modified: the merged command table must be
+        # rebuilt then as well.
+        try:
+            cwd = os.getcwd() if any(not os.path.isabs(p) for p in paths) else None
+        except OSError:
+            cwd = None
+        paths_key = (paths, cwd)
+        is_path_list_change = paths_key != self._paths_key
+        if is_path_list_change and self._paths_key and self._paths_key[1] != cwd:
+            # relative entries now name other directories
+            for p in [p for p in self._paths_cache if not os.path.isabs(p)]:
+                del self._paths_cache[p]
+        self._paths_key = paths_key
         is_paths_change = self._update_paths_cache(paths)
-        return is_aliases_change or is_paths_change
+        return is_aliases_change or is_paths_change or is_path_list_change
 
     @property
     def all_commands(self):
